@@ -359,3 +359,11 @@ def e5(ctx):
 def e6(ctx):
     from .c08 import g2
     return g2(ctx)
+
+
+@rule("C02", "E7", floor=9, kind="N",
+      desc="an ETag never names two states: writers exclude each other on the index (same obligations as C05/L0) - a "
+           "stale index written back over another writer's entry makes a member fall back to an earlier body and ETag")
+def e7(ctx):
+    from .c05 import l0
+    return l0(ctx)
